@@ -31,6 +31,15 @@ func verifSetTimer(w *collection.TimingWheel, key, value any, delay time.Duratio
 	if delay <= 0 || key == nil { // the real SetTimer's argument check
 		return collection.ErrArgument
 	}
+	// as the real wheel: setting a timer under a key that is still pending replaces that entry
+	if ks, ok := key.(string); ok {
+		for i, t := range verifTimers {
+			if ts, ok := t.key.(string); ok && ts == ks {
+				verifTimers[i] = verifTimer{key, value, delay}
+				return nil
+			}
+		}
+	}
 	verifTimers = append(verifTimers, verifTimer{key, value, delay})
 	return nil
 }
